@@ -4,6 +4,7 @@ from ..mon import gt_parse, gt_hex
 from ..rm import q, r, F1, F2, h32
 
 ID = 'C01'
+PERTURB = (8, 80)      # cases re-run in the repeat / parallel perturbation passes (quick, thorough)
 EXES = ['release']
 RULE = ('each case draws scalars a, a\', b, b\' (classes: 0, 1, 2, r-1, r-2, (r+-1)/2, 2^i, long runs, sparse, limb patterns, uniform) '
         'and representations for P = aG1, P\' = a\'G1, Q = bG2, Q\' = b\'G2 (z=1, library Jacobian, lambda-rescaled, computed by library '
